@@ -1,7 +1,7 @@
 /-
 C13 for the C text as it is now: the theorems of Props/C13.lean restated for the Lean definitions GENERATED from
 libscpi/src/lexer.c on every run (Gen/LexerC.lean, translate/c2lean_lexer.py), transferred through the refinement theorems
-of Lemmas/LexerC.lean and Lemmas/LexerCTok.lean.  Only theorems and examples here.
+of Lemmas/LexerC.lean, Lemmas/LexerCTok.lean and Lemmas/LexerCTok2.lean.  Only theorems and examples here.
 
 Reading guide.  `st buf pos` is the C state `{buffer, pos = buffer + pos, len = buf.length}` with both flags clear; the
 generated function returns the new state, the token structure (`tk t`: enum value, offset, length) and the C return value.
@@ -13,7 +13,7 @@ Because the generated text keeps `!iseos(state)` and the read apart and evaluate
 family is a theorem about the check-then-read pairs of the C source, which the hand model cannot express (Props/C01.lean).
 -/
 import ScpiVerif.Props.C13
-import ScpiVerif.Lemmas.LexerCTok
+import ScpiVerif.Lemmas.LexerCTok2
 
 namespace ScpiVerif.Props.C13Gen
 open ScpiVerif ScpiVerif.Lexer ScpiVerif.Spec ScpiVerif.Gen.LexerC ScpiVerif.Lemmas.LexerC
@@ -133,6 +133,61 @@ theorem c_lex_nondecimal_no_oob (buf : Bytes) (pos : Nat) (tok : CTok) :
     (scpiLex_NondecimalNumericData (st buf pos) tok).1.oob = false ∧ (scpiLex_NondecimalNumericData (st buf pos) tok).1.ub = false := by
   rw [scpiLex_NondecimalNumericData_ref]; exact ⟨rfl, rfl⟩
 
+theorem c_lex_suffix (buf : Bytes) (pos : Nat) (h : pos ≤ buf.length) (tok : CTok) :
+    scpiLex_SuffixProgramData (st buf pos) tok = res buf (lexSuffix buf pos) ∧ Agrees .suffix buf pos (lexSuffix buf pos) :=
+  ⟨scpiLex_SuffixProgramData_ref buf pos tok, Props.C13.suffix_spec buf pos h⟩
+theorem c_lex_suffix_no_oob (buf : Bytes) (pos : Nat) (tok : CTok) :
+    (scpiLex_SuffixProgramData (st buf pos) tok).1.oob = false ∧ (scpiLex_SuffixProgramData (st buf pos) tok).1.ub = false := by
+  rw [scpiLex_SuffixProgramData_ref]; exact ⟨rfl, rfl⟩
+
+/-- the helpers of the header recogniser: mnemonic (value > 0 complete, < 0 ended at the end of the input, 0 none), common and
+compound header (1 / -1 / 0) -/
+theorem c_lex_header_skips (buf : Bytes) (pos : Nat) :
+    Gen.LexerC.skipProgramMnemonic (st buf pos) = (st buf (Lexer.skipProgramMnemonic buf pos).1, (Lexer.skipProgramMnemonic buf pos).2) ∧
+    Gen.LexerC.skipCommonProgramHeader (st buf pos) =
+      (st buf (Lexer.skipCommonProgramHeader buf pos).1, (Lexer.skipCommonProgramHeader buf pos).2) ∧
+    Gen.LexerC.skipCompoundProgramHeader (st buf pos) =
+      (st buf (Lexer.skipCompoundProgramHeader buf pos).1, (Lexer.skipCompoundProgramHeader buf pos).2) :=
+  ⟨skipProgramMnemonic_ref buf pos, skipCommonProgramHeader_ref buf pos, skipCompoundProgramHeader_ref buf pos⟩
+
+theorem c_lex_programHeader (buf : Bytes) (pos : Nat) (h : pos ≤ buf.length) (tok : CTok) :
+    scpiLex_ProgramHeader (st buf pos) tok = res buf (lexProgramHeader buf pos) ∧ Agrees .header buf pos (lexProgramHeader buf pos) :=
+  ⟨scpiLex_ProgramHeader_ref buf pos tok, Props.C13.programHeader_spec buf pos h⟩
+theorem c_lex_programHeader_no_oob (buf : Bytes) (pos : Nat) (tok : CTok) :
+    (scpiLex_ProgramHeader (st buf pos) tok).1.oob = false ∧ (scpiLex_ProgramHeader (st buf pos) tok).1.ub = false := by
+  rw [scpiLex_ProgramHeader_ref]; exact ⟨rfl, rfl⟩
+
+/-- the quote loop: stops at a lone quote, at a byte >= 0x80 or at the end of the input (`q` as the plain char `sc q`) -/
+theorem c_lex_skipQuote (buf : Bytes) (pos : Nat) (q : UInt8) :
+    skipQuoteProgramData (st buf pos) (sc q) = st buf (skipQuote buf q (buf.length - pos + 1) pos) := by
+  have h1 : -128 ≤ sc q := by simp only [sc]; split <;> omega
+  have h2 : sc q ≤ 127 := by simp only [sc]; have := UInt8.toNat_lt q; split <;> omega
+  rw [skipQuoteProgramData_ref buf pos (sc q) h1 h2, uc_sc]
+
+theorem c_lex_string (buf : Bytes) (pos : Nat) (h : pos ≤ buf.length) (tok : CTok) :
+    scpiLex_StringProgramData (st buf pos) tok = res buf (lexString buf pos) ∧ Agrees .string buf pos (lexString buf pos) :=
+  ⟨scpiLex_StringProgramData_ref buf pos tok, Props.C13.string_spec buf pos h⟩
+theorem c_lex_string_no_oob (buf : Bytes) (pos : Nat) (tok : CTok) :
+    (scpiLex_StringProgramData (st buf pos) tok).1.oob = false ∧ (scpiLex_StringProgramData (st buf pos) tok).1.ub = false := by
+  rw [scpiLex_StringProgramData_ref]; exact ⟨rfl, rfl⟩
+
+theorem c_lex_expression (buf : Bytes) (pos : Nat) (h : pos ≤ buf.length) (tok : CTok) :
+    scpiLex_ProgramExpression (st buf pos) tok = res buf (lexExpression buf pos) ∧ Agrees .expression buf pos (lexExpression buf pos) :=
+  ⟨scpiLex_ProgramExpression_ref buf pos tok, Props.C13.expression_spec buf pos h⟩
+theorem c_lex_expression_no_oob (buf : Bytes) (pos : Nat) (tok : CTok) :
+    (scpiLex_ProgramExpression (st buf pos) tok).1.oob = false ∧ (scpiLex_ProgramExpression (st buf pos) tok).1.ub = false := by
+  rw [scpiLex_ProgramExpression_ref]; exact ⟨rfl, rfl⟩
+
+/-- the block recogniser.  `state->pos += arbitraryBlockLength` may leave the buffer before the comparison with its end is
+made (the offset is an `Int`, nothing is read there): the generated text and the model carry the same out-of-range value -/
+theorem c_lex_block (buf : Bytes) (pos : Nat) (h : pos ≤ buf.length) (tok : CTok) :
+    scpiLex_ArbitraryBlockProgramData (st buf pos) tok = res buf (lexBlock buf pos) ∧ Agrees .block buf pos (lexBlock buf pos) :=
+  ⟨scpiLex_ArbitraryBlockProgramData_ref buf pos tok, Props.C13.block_spec buf pos h⟩
+theorem c_lex_block_no_oob (buf : Bytes) (pos : Nat) (tok : CTok) :
+    (scpiLex_ArbitraryBlockProgramData (st buf pos) tok).1.oob = false ∧
+    (scpiLex_ArbitraryBlockProgramData (st buf pos) tok).1.ub = false := by
+  rw [scpiLex_ArbitraryBlockProgramData_ref]; exact ⟨rfl, rfl⟩
+
 /-! ### kernel-evaluated examples on the generated text -/
 
 -- "1.5E+3 V;" (9 bytes) at offset 0: the number is 6 bytes long, the cursor stops before the space, nothing read outside
@@ -153,5 +208,36 @@ example : scpiLex_NewLine (st [13, 10] 0) ⟨0, 0, 0⟩ = (st [13, 10] 2, ⟨5, 
 example : scpiLex_CharacterProgramData (st [97, 98, 95, 49, 32] 0) ⟨0, 0, 0⟩ = (st [97, 98, 95, 49, 32] 4, ⟨9, 0, 4⟩, 4) := by decide +kernel
 -- a byte >= 0x80 is a negative plain char: not white space, not a digit, and `(uint8_t)` maps it to 128..255 for <ctype.h>
 example : scpiLex_CharacterProgramData (st [200, 97] 0) ⟨0, 0, 0⟩ = (st [200, 97] 0, ⟨26, 0, 0⟩, 0) := by decide +kernel
+-- "1.5 V/" at offset 4: the buffer ends right after the '/', inside the suffix; the loop `while (skipSlashDot(state))` takes the
+-- '/', the three skips after it stop at the end of the input without reading, the next `skipSlashDot` too
+example : scpiLex_SuffixProgramData (st [49, 46, 53, 32, 86, 47] 4) ⟨0, 0, 0⟩ = (st [49, 46, 53, 32, 86, 47] 6, ⟨12, 4, 2⟩, 2) := by decide +kernel
+-- "SYST:" ends in a colon: the mnemonic behind it is empty AT the end of the input, the loop body returns SKIP_INCOMPLETE, the
+-- token is an INCOMPLETE compound header of all 5 bytes; nothing was read at offset 5
+example : scpiLex_ProgramHeader (st [83, 89, 83, 84, 58] 0) ⟨0, 0, 0⟩ = (st [83, 89, 83, 84, 58] 5, ⟨18, 0, 5⟩, 5) := by decide +kernel
+-- "*IDN" ends inside the mnemonic: (negative length) * counts as complete; "*" alone is an incomplete common header
+example : scpiLex_ProgramHeader (st [42, 73, 68, 78] 0) ⟨0, 0, 0⟩ = (st [42, 73, 68, 78] 4, ⟨19, 0, 4⟩, 4) := by decide +kernel
+example : scpiLex_ProgramHeader (st [42] 0) ⟨0, 0, 0⟩ = (st [42] 1, ⟨20, 0, 1⟩, 1) := by decide +kernel
+-- ":A:b? " : compound query header of 5 bytes
+example : scpiLex_ProgramHeader (st [58, 65, 58, 98, 63, 32] 0) ⟨0, 0, 0⟩ = (st [58, 65, 58, 98, 63, 32] 5, ⟨21, 0, 5⟩, 5) := by decide +kernel
+-- `"abc` without the closing quote: the loop runs to the end of the input, the test for the closing quote is not reached
+-- (`!iseos(state) &&`), cursor restored, no token, nothing read at offset 4
+example : scpiLex_StringProgramData (st [34, 97, 98, 99] 0) ⟨0, 0, 0⟩ = (st [34, 97, 98, 99] 0, ⟨26, 0, 0⟩, 0) := by decide +kernel
+-- `"a""b"c`: the doubled quote is skipped as a pair (pos++ ... pos++), the lone one ends the string (pos++ ... pos--)
+example : scpiLex_StringProgramData (st [34, 97, 34, 34, 98, 34, 99] 0) ⟨0, 0, 0⟩ = (st [34, 97, 34, 34, 98, 34, 99] 6, ⟨15, 0, 6⟩, 6) := by
+  decide +kernel
+-- `'a'` ending in the closing quote: the look-ahead for a doubled quote stops at the end of the input
+example : scpiLex_StringProgramData (st [39, 97, 39] 0) ⟨0, 0, 0⟩ = (st [39, 97, 39] 3, ⟨14, 0, 3⟩, 3) := by decide +kernel
+-- `(@1` without ')' and `(@1)`
+example : scpiLex_ProgramExpression (st [40, 64, 49] 0) ⟨0, 0, 0⟩ = (st [40, 64, 49] 0, ⟨26, 0, 0⟩, 0) := by decide +kernel
+example : scpiLex_ProgramExpression (st [40, 64, 49, 41] 0) ⟨0, 0, 0⟩ = (st [40, 64, 49, 41] 4, ⟨16, 0, 4⟩, 4) := by decide +kernel
+-- "#13abc;" : the token describes the 3 payload bytes at offset 3, the return value the whole block
+example : scpiLex_ArbitraryBlockProgramData (st [35, 49, 51, 97, 98, 99, 59] 0) ⟨0, 0, 0⟩ =
+    (st [35, 49, 51, 97, 98, 99, 59] 6, ⟨13, 3, 3⟩, 6) := by decide +kernel
+-- "#210ab": 10 bytes announced, 2 present - the cursor would be at offset 14 of 6; incomplete: the rest is swallowed, no read there
+example : scpiLex_ArbitraryBlockProgramData (st [35, 50, 49, 48, 97, 98] 0) ⟨0, 0, 0⟩ = (st [35, 50, 49, 48, 97, 98] 6, ⟨26, 0, 0⟩, 0) := by
+  decide +kernel
+-- "#2" and "#": the buffer ends inside the length digits / right after '#'
+example : scpiLex_ArbitraryBlockProgramData (st [35, 50] 0) ⟨0, 0, 0⟩ = (st [35, 50] 2, ⟨26, 0, 0⟩, 0) := by decide +kernel
+example : scpiLex_ArbitraryBlockProgramData (st [35] 0) ⟨0, 0, 0⟩ = (st [35] 1, ⟨26, 0, 0⟩, 0) := by decide +kernel
 
 end ScpiVerif.Props.C13Gen
